@@ -996,6 +996,32 @@ class AInt:
         return ("I",)
 
 
+class ACount(AInt):
+    """The number a count expression (`len(S)`, `sum(pred(c) for c in S)` …) had when it was stored in a local. The
+    expression is remembered, so that a later comparison of the local with a constant refines S exactly as the inline
+    comparison would; the memory is dropped as soon as a name the expression reads is assigned again."""
+
+    def __init__(self, expr: ast.AST):
+        self.expr = expr
+        self.reads = frozenset(n.id for n in ast.walk(expr) if isinstance(n, ast.Name))
+
+    def key(self) -> tuple:
+        return ("I", "count", id(self.expr))
+
+
+def _forget_counts(v: Any) -> Any:
+    """v without remembered count expressions (for values that leave the scope the expression was read in, or sit in containers)."""
+    if isinstance(v, ACount):
+        return AInt()
+    if isinstance(v, tuple):
+        return tuple(_forget_counts(x) for x in v)
+    if isinstance(v, list):
+        return [_forget_counts(x) for x in v]
+    if isinstance(v, ASeq) and isinstance(v.elem, ACount):
+        return ASeq(AInt(), v.lo, v.hi)
+    return v
+
+
 class ASeq:
     """Homogeneous sequence (tuple/list/generator) of abstract elements with lo <= len <= hi."""
 
@@ -1171,7 +1197,7 @@ class SInterp:
                 defaults[p.arg] = d
         for p in pos + a.kwonlyargs:
             if p.arg in args:
-                env[p.arg] = args[p.arg]
+                env[p.arg] = _forget_counts(args[p.arg])
             elif p.arg in defaults:
                 vs = self.eval(defaults[p.arg], State())
                 env[p.arg] = vs[0][0]
@@ -1184,7 +1210,7 @@ class SInterp:
             f = self.exec_block(fn.body, [State(env, meta or {})])
         finally:
             self.depth -= 1
-        out = list(f.ret) + [(None, s) for s in f.normal]
+        out = [(_forget_counts(v), s) for v, s in f.ret] + [(None, s) for s in f.normal]
         for name, s, node in f.exc:
             self.event("raise", name, node, s)
         return out
@@ -1211,6 +1237,8 @@ class SInterp:
             targets = s.targets if isinstance(s, ast.Assign) else [s.target]
             for st in states:
                 for v, st2 in self.eval_forking(s.value, st):
+                    if type(v) is AInt and len(targets) == 1 and isinstance(targets[0], ast.Name) and self._count_expr(s.value, st2) is not None:
+                        v = ACount(s.value)  # a count kept in a local: remembered symbolically (see _count_expr)
                     for t in targets:
                         st2 = self.assign(t, v, st2)
                     flow.normal.append(st2)
@@ -1281,7 +1309,7 @@ class SInterp:
                         for e in h.type.elts if isinstance(h.type, ast.Tuple) else [h.type]:
                             names.append((_dotted(e) or "?").split(".")[-1])
                     if h.type is None or name in names or "Exception" in names or "BaseException" in names:
-                        st2 = st.set(h.name, UNKNOWN) if h.name else st
+                        st2 = self._bind(st, h.name, UNKNOWN) if h.name else st
                         fh = self.exec_block(h.body, [st2])
                         flow.absorb(fh)
                         normal += fh.normal
@@ -1397,7 +1425,7 @@ class SInterp:
 
     def assign(self, t: ast.AST, v: Any, st: State) -> State:
         if isinstance(t, ast.Name):
-            return st.set(t.id, v)
+            return self._bind(st, t.id, v)
         if isinstance(t, (ast.Tuple, ast.List)):
             if isinstance(v, (tuple, list)) and len(v) == len(t.elts):
                 for e, x in zip(t.elts, v):
@@ -1415,6 +1443,18 @@ class SInterp:
         if isinstance(t, (ast.Attribute, ast.Subscript)):
             return st  # stores into objects are not modelled (no analysed function depends on them)
         raise Unsupported(f"assignment target {type(t).__name__}")
+
+    def _bind(self, st: State, name: str, v: Any) -> State:
+        """(Re)bind a name: every remembered count expression that reads the name is forgotten; a remembered count survives
+        only as the direct value of a local."""
+        if isinstance(v, ACount):
+            if name in v.reads:
+                v = AInt()
+        else:
+            v = _forget_counts(v)
+        env = {k: (AInt() if isinstance(x, ACount) and name in x.reads else x) for k, x in st.env.items()}
+        env[name] = v
+        return State(env, st.meta)
 
     # ------------------------------------------------------------------ conditions
     def eval_forking(self, e: ast.AST, st: State) -> list[tuple[Any, State]]:
@@ -1607,6 +1647,9 @@ class SInterp:
     def _count_expr(self, e: ast.AST, st: State) -> tuple[ast.AST, frozenset] | None:
         """len(S) / sum(pred(c) for c in S) / sum(1 for c in S if pred(c)) / len([c for c in S if pred(c)])
         -> (S, atoms counted)."""
+        if isinstance(e, ast.Name) and isinstance(st.env.get(e.id), ACount):
+            # a local that still holds the value of a count expression whose operands have not been assigned since
+            return self._count_expr(st.env[e.id].expr, st)
         if not (isinstance(e, ast.Call) and isinstance(e.func, ast.Name) and len(e.args) == 1 and not e.keywords):
             return None
         a = e.args[0]
@@ -2557,7 +2600,21 @@ _P = "packages/llama-agents-control-plane/src/llama_agents/control_plane/k8s_cli
 _SUF = '    if len(deployment_id) < 3 or force_suffix:'
 _CUT = '    deployment_id = deployment_id[:max_length].rstrip("-")'
 _ELSE = '    else:\n        to_take = max_length - randomness - 1\n        return f"{deployment_id[:to_take]}-{hex_suffix}"'
+_FEW = '    few_alphanumerics = len(deployment_id.replace("-", "")) < 3\n'
+_LOW = "    deployment_id = name.lower()\n"
+_NORM = (
+    _LOW + '    deployment_id = re.sub(r"[^a-z0-9]", "-", deployment_id)\n    deployment_id = re.sub(r"-+", "-", deployment_id)\n    deployment_id = re.sub(r"^-|-$", "", deployment_id)\n'
+    '    # A name with fewer than three alphanumerics always gets a random suffix. Count\n    # them here: the separators and the "d-" prefix added below do not make an id\n    # such as "a-b" or "d-1" meaningful enough.\n'
+)
 TWINS: list[Twin] = [
+    # ---- a count kept in a local, thresholds/lengths as module constants, inverted helper branches
+    Twin("benign: alphanumeric count through a local", _P, _FEW, '    alnum_count = len(deployment_id.replace("-", ""))\n    few_alphanumerics = alnum_count < 3\n', None),
+    Twin("benign: count local compared mirrored", _P, _FEW, '    alnum_count = len(deployment_id.replace("-", ""))\n    few_alphanumerics = 3 > alnum_count\n', None),
+    Twin("count local compared with 2", _P, _FEW, '    alnum_count = len(deployment_id.replace("-", ""))\n    few_alphanumerics = alnum_count < 2\n', "C32.R2"),
+    Twin("stale count local (taken before the separators are collapsed) decides the suffix", _P, _NORM + _FEW, _NORM.replace(_LOW, _LOW + "    raw_count = len(deployment_id)\n") + "    few_alphanumerics = raw_count < 3\n", "C32.R2"),
+    Twin("benign: label length through a second local", _P, "    max_length = 63  # DNS-1035 label max length\n", "    label_max = 63\n    max_length = label_max\n", None),
+    Twin("benign: helper branches inverted", _P, '    if not deployment_id:\n        # DNS-1035: must start with an alphabetic character\n        if hex_suffix[0].isdigit():\n            hex_suffix = random.choice("abcdef") + hex_suffix[1:]\n        return hex_suffix\n    else:\n        to_take = max_length - randomness - 1\n        return f"{deployment_id[:to_take]}-{hex_suffix}"\n',
+         '    if deployment_id:\n        to_take = max_length - randomness - 1\n        head = deployment_id[:to_take]\n        return f"{head}-{hex_suffix}"\n    if hex_suffix[0].isdigit():\n        hex_suffix = random.choice("abcdef") + hex_suffix[1:]\n    return hex_suffix\n', None),
     # ---- R1 breaking
     Twin("cut may end in a hyphen", _P, _CUT, '    deployment_id = deployment_id[:max_length]', "C32.R1"),
     Twin("suffix room off by one (64 chars)", _P, "to_take = max_length - randomness - 1", "to_take = max_length - randomness", "C32.R1"),
